@@ -113,6 +113,9 @@ def gen(seed, tier, want=None):
                     for j in range(0, jmax + 1, jstep):
                         scen.append(Scenario(name, disp, setup, acts, [P] * i + [Q] * 70 + [P] * j + [R] * 70 + [P] * 70))
                         scen.append(Scenario(name, disp, setup, acts, [P] * i + [Q] * j + [P] * 70 + [R] * 70 + [Q] * 70))
+                # P paused once, Q runs to completion inside the pause, P finishes, then R
+                for i in range(0, 34):
+                    scen.append(Scenario(name, disp, setup, acts, [P] * i + [Q] * 70 + [P] * 70 + [R] * 70))
                 # late split points of P (the tail of a call: unlock and whatever follows it) against an early pause of Q
                 if acts[P][0] != 1 and acts[Q][0] != 1:
                     # (two calls and a delivery: every pause point of the second call against every late split of the first)
